@@ -234,28 +234,18 @@ Definition judge_helper (r : redeemers) (cm : costmdls) (d : option plutus_list)
   | _ => Fails 0
   end.
 
-(* did the hash the builder holds after [ops] come from calc_script_data_hash (and not from set_script_data_hash)? *)
-Fixpoint calc_stored (b : builder) (flag : bool) (ops : list op) : bool :=
-  match ops with
-  | [] => flag
-  | o :: t =>
-      let flag' := match o with
-                   | OpCalc cm => match calc_preimage b cm with Ok (Some _) => true | _ => flag end
-                   | OpSetHash _ | OpRemoveHash => false
-                   | _ => flag
-                   end in
-      calc_stored (fst (step H b o)) flag' t
-  end.
+(* the shape of the (repaired) defect C09-noop-calc-keeps-hash: nothing to hash, yet a hash stored by an earlier
+   calc_script_data_hash is held *)
+Definition noop_shape (b0 : builder) : bool :=
+  negb (has_script_items b0) && is_some (b_script_data_hash b0) && b_hash_calculated b0.
 
-(* known class C09-noop-calc-keeps-hash: the last calc_script_data_hash found nothing to hash (every Plutus witness and
-   extra datum present at an earlier calc has been replaced away since: an input added again as a key input, a
-   sub-builder replaced by one without Plutus witnesses) and left in place a hash that an EARLIER calc had stored *)
+(* class C09-noop-calc-keeps-hash: the last calc_script_data_hash found nothing to hash (every Plutus witness and extra
+   datum present at an earlier calc has been replaced away since) on a builder holding a hash an EARLIER calc had stored *)
 Definition known_noop_calc (ops : list op) : bool :=
   match last_calc_rev (rev ops) with
   | Some (cm, before) =>
       let b0 := fst (run H builder_new (rev before)) in
-      is_ok (calc_script_data_hash H b0 cm) && negb (has_script_items b0) && is_some (b_script_data_hash b0) &&
-      calc_stored builder_new false (rev before)
+      is_ok (calc_script_data_hash H b0 cm) && noop_shape b0
   | None => false
   end.
 
@@ -270,19 +260,15 @@ Definition judge_builder (ops : list op) (tx_bytes : bytes) : verdict :=
       | Some (cm, before) =>
           let b0 := fst (run H builder_new (rev before)) in
           let b := fst (run H builder_new ops) in
-          if is_ok (calc_script_data_hash H b0 cm) && (has_script_items b0 || is_none (b_script_data_hash b0)) then
+          (* in scope: the hash in the body is one the builder computed (or there is none) — not one installed by hand *)
+          if is_ok (calc_script_data_hash H b0 cm) &&
+             (has_script_items b0 || is_none (b_script_data_hash b0) || b_hash_calculated b0) then
             if opt_bytes_eqb (v_script_data_hash v)
                  (ledger_script_integrity H (v_redeemers v) (v_datums v) (langs_used b) cm)
             then Holds
             else if known_stale_lang b0 && opt_bytes_eqb (v_script_data_hash v) (b_script_data_hash b) then Fails 3
-            else Fails 0
-          else if known_noop_calc ops then
-            (* the hash in the body is an earlier state's: the ledger derives its hash from the emitted witness set *)
-            let b := fst (run H builder_new ops) in
-            if opt_bytes_eqb (v_script_data_hash v)
-                 (ledger_script_integrity H (v_redeemers v) (v_datums v) (langs_used b) cm)
-            then Holds
-            else if opt_bytes_eqb (v_script_data_hash v) (b_script_data_hash b) then Fails 4
+            (* the hash of the earlier state left in place by a calc that found nothing to hash *)
+            else if noop_shape b0 && opt_bytes_eqb (v_script_data_hash v) (b_script_data_hash b0) then Fails 4
             else Fails 0
           else NotApplicable
       | None => NotApplicable
